@@ -6,16 +6,22 @@
 // runtime (overlay of runtime/map.go, see overlay.sh): the k-th iteration
 // over a map with >= 2 entries starts at a position chosen by the harness.
 // For every (program, configuration):
-//   baseline      all iterations start at position 0; run twice, in two
-//                 different output directories, the second one already
-//                 populated, with GOMAXPROCS 1 and 16: identical trees and
-//                 identical plugin requests, and the same sequence of
-//                 (calling function, map size class) iterations — which shows
-//                 that iteration numbers mean the same thing in every run;
-//   1-deviation   for every iteration k and every start v of that map
-//                 (8 * 2^B positions), only iteration k starts at v;
-//   diagonals     every iteration starts at v, v = 1..7;
-//   2-deviations  (thorough, interplay program) all pairs of deviations;
+//
+//	baseline      all iterations start at position 0; run twice, in two
+//	              different output directories, the second one already
+//	              populated, with GOMAXPROCS 1 and 16: identical trees and
+//	              identical plugin requests, and the same sequence of
+//	              (calling function, map size class) iterations — which shows
+//	              that iteration numbers mean the same thing in every run;
+//	per site      for every call site (program counter) that iterates a map,
+//	              ALL its iterations start at v (quick: v = 1, the rotation
+//	              that changes the order of every map with >= 2 entries;
+//	              thorough: every v < 8 * 2^B);
+//	per iteration (thorough, two programs) every single iteration k alone,
+//	              every start v of that map;
+//	diagonals     every iteration starts at v, v = 1..7;
+//	pairs         (thorough) a site and the first iteration of another site;
+//
 // and every run must produce the baseline's file set, bytes and plugin
 // request (plain and include-compressed form). Then the stock binary (no
 // overlay, real random starts and hash seeds) is run repeatedly under
@@ -54,8 +60,11 @@ type outcome struct {
 	files map[string]string // rel path -> sha256
 	req   string            // sha256 of the plain request
 	reqz  string            // sha256 of the compressed request
+	norm  string            // sha256 of the request without Name2Category maps + those maps as sorted lines
 	iters []string
 }
+
+const n2cOnly = "the plugin request has different bytes: the entries of a Name2Category map are written in another order"
 
 func hash(b []byte) string { return fmt.Sprintf("%x", sha256.Sum256(b)) }
 
@@ -82,11 +91,11 @@ func (o *outcome) diff(base *outcome) string {
 			return "extra file " + f
 		}
 	}
-	if o.req != base.req {
-		return "the plugin request has different bytes"
+	if o.norm != base.norm {
+		return "the plugin request differs (in more than the order of Name2Category entries)"
 	}
-	if o.reqz != base.reqz {
-		return "the include-compressed plugin request has different bytes"
+	if o.req != base.req || o.reqz != base.reqz {
+		return n2cOnly
 	}
 	return ""
 }
@@ -168,7 +177,7 @@ func main() {
 	exec1 := func(bin string, dp *dprog, c cfg, mapSpec string, gomaxprocs int, populate map[string]string, wantIters bool) *outcome {
 		mu.Lock()
 		caseN++
-		dir := filepath.Join(scratch, "runs", fmt.Sprint(caseN))
+		dir := filepath.Join(scratch, "runs", fmt.Sprintf("%08d", caseN))
 		mu.Unlock()
 		out := filepath.Join(dir, "out-"+fmt.Sprint(caseN%7)) // the directory's own name varies
 		os.MkdirAll(out, 0o755)
@@ -213,6 +222,9 @@ func main() {
 		if b, err := os.ReadFile(filepath.Join(dir, "req.bin.z")); err == nil {
 			o.reqz = hash(bytes.ReplaceAll(b, []byte(out), []byte("<OUT>")))
 		}
+		if b, err := os.ReadFile(filepath.Join(dir, "req.bin.norm")); err == nil {
+			o.norm = hash(bytes.ReplaceAll(b, []byte(out), []byte("<OUT>")))
+		}
 		if wantIters {
 			b, _ := os.ReadFile(filepath.Join(dir, "iters.txt"))
 			o.iters = strings.Split(strings.TrimSpace(string(b)), "\n")
@@ -230,6 +242,7 @@ func main() {
 	}
 	outcomes := map[string]int64{}
 	totalIters, totalRuns := 0, 0
+	allSites := map[string]int{}
 	var sampleIters []string
 	for _, dp := range dps {
 		for _, c := range cfgs {
@@ -250,7 +263,10 @@ func main() {
 			pop := map[string]string{"stale/old.txt": "left over"}
 			again := exec1(worker, dp, c, "-1,0,-1,0,0", 16, pop, true)
 			run.Eval(key+"|baseline-again", true)
-			if d := again.diff(base); d != "" {
+			if d := again.diff(base); d == n2cOnly {
+				// maps with more than 8 entries: the placement of keys depends on the per-process hash seed
+				run.Violate(evid.Violation{Class: "plugin-request:Name2Category-order", What: fmt.Sprintf("%s: two runs with the same iteration starts: %s", key, d), Replay: rp})
+			} else if d != "" {
 				run.Violate(evid.Violation{Class: "differs-without-any-map-deviation:" + c.name, What: fmt.Sprintf("%s: the same command with the same iteration starts, in another (populated) directory with GOMAXPROCS=16: %s", key, d), Replay: rp})
 				continue
 			}
@@ -271,24 +287,74 @@ func main() {
 			}
 			totalIters += len(base.iters)
 			var jobs []job
+			// call sites: every iteration made from one program counter deviates at once
+			type site struct {
+				pc    string
+				fn    string
+				maxB  int
+				count int
+				first int
+			}
+			sites := map[string]*site{}
+			var siteOrder []string
 			for k, line := range base.iters {
+				f := strings.Fields(line)
+				if len(f) < 3 {
+					continue
+				}
 				var b int
-				fmt.Sscanf(line, "%d", &b)
-				for v := 1; v < 8<<uint(b); v++ {
-					jobs = append(jobs, job{fmt.Sprintf("%d,%d,-1,0,0", k, v), fmt.Sprintf("iteration %d (%s) starts at %d", k, line, v), k})
+				fmt.Sscanf(f[0], "%d", &b)
+				st := sites[f[1]]
+				if st == nil {
+					st = &site{pc: f[1], fn: strings.Join(f[2:], " "), first: k}
+					sites[f[1]] = st
+					siteOrder = append(siteOrder, f[1])
+				}
+				st.count++
+				if b > st.maxB {
+					st.maxB = b
+				}
+			}
+			mu.Lock()
+			for _, pc := range siteOrder {
+				allSites[sites[pc].fn] += sites[pc].count
+			}
+			mu.Unlock()
+			for _, pc := range siteOrder {
+				st := sites[pc]
+				starts := []int{1}
+				if thorough {
+					starts = nil
+					for v := 1; v < 8<<uint(st.maxB); v++ {
+						starts = append(starts, v)
+					}
+				} else if st.maxB > 0 {
+					starts = []int{1, 8, 9} // next slot, next bucket, both
+				}
+				for _, v := range starts {
+					jobs = append(jobs, job{fmt.Sprintf("-1,0,-1,0,0,%s,%d", pc, v), fmt.Sprintf("all %d iterations made by %s start at %d", st.count, st.fn, v), st.first})
+				}
+			}
+			if thorough && (dp.name == "interplay" || dp.name == "annotated-same-base-name") {
+				// every single iteration on its own
+				for k, line := range base.iters {
+					var b int
+					fmt.Sscanf(line, "%d", &b)
+					for v := 1; v < 8<<uint(b); v++ {
+						jobs = append(jobs, job{fmt.Sprintf("%d,%d,-1,0,0", k, v), fmt.Sprintf("iteration %d (%s) starts at %d", k, line, v), k})
+					}
 				}
 			}
 			for v := 1; v < 8; v++ {
 				jobs = append(jobs, job{fmt.Sprintf("-1,0,-1,0,%d", v), fmt.Sprintf("every iteration starts at %d", v), -1})
 			}
-			if thorough && dp.name == "interplay" && (c.name == "go -r" || c.name == "go:with_reflection -r") {
-				for k1 := range base.iters {
-					for k2 := k1 + 1; k2 < len(base.iters); k2++ {
-						for _, v1 := range []int{1, 5} {
-							for _, v2 := range []int{2, 7} {
-								jobs = append(jobs, job{fmt.Sprintf("%d,%d,%d,%d,0", k1, v1, k2, v2), fmt.Sprintf("iterations %d and %d start at %d and %d", k1, k2, v1, v2), k1})
-							}
-						}
+			if thorough && dp.name == "interplay" && c.name == "go:with_reflection -r" {
+				// pairs of call sites
+				for i, p1 := range siteOrder {
+					for _, p2 := range siteOrder[i+1:] {
+						_ = p2
+						k2 := sites[p2].first
+						jobs = append(jobs, job{fmt.Sprintf("%d,1,-1,0,0,%s,1", k2, p1), fmt.Sprintf("all iterations of %s and the first of %s start at 1", sites[p1].fn, sites[p2].fn), sites[p1].first})
 					}
 				}
 			}
@@ -323,8 +389,8 @@ func main() {
 				fn := "diagonal"
 				if r.j.k >= 0 && r.j.k < len(base.iters) {
 					f := strings.Fields(base.iters[r.j.k])
-					if len(f) >= 2 {
-						fn = f[1]
+					if len(f) >= 3 {
+						fn = f[2]
 					}
 				}
 				what := r.d
@@ -333,6 +399,9 @@ func main() {
 					what = "file *" + filepath.Ext(f) + suffixOf(f) + " " + strings.Join(strings.Fields(what)[2:], " ")
 				}
 				cls := "order-reaches-output:" + fn + ":" + what
+				if r.d == n2cOnly {
+					cls = "plugin-request:Name2Category-order"
+				}
 				if !bad[cls] || true {
 					bad[cls] = true
 					m := map[string]any{"map_spec": r.j.spec, "deviation": r.j.what}
@@ -391,6 +460,7 @@ func main() {
 	run.Set("programs", len(dps))
 	run.Set("configurations", len(cfgs))
 	run.Set("map_iterations_hooked", totalIters)
+	run.Set("call_sites_iterating_maps", allSites)
 	run.Set("deviation_runs", totalRuns)
 	run.Set("stock_binary_runs", stockRuns)
 	run.Set("outcome_classes", outcomes)
@@ -425,7 +495,7 @@ func execStock(tg, scratch string, mu *sync.Mutex, caseN *int, mainPath string, 
 	*caseN++
 	n := *caseN
 	mu.Unlock()
-	dir := filepath.Join(scratch, "runs", fmt.Sprint(n))
+	dir := filepath.Join(scratch, "runs", fmt.Sprintf("%08d", n))
 	out := filepath.Join(dir, "o"+fmt.Sprint(n%5))
 	os.MkdirAll(out, 0o755)
 	defer os.RemoveAll(dir)
